@@ -38,6 +38,10 @@ class Unsupported(Exception):
     pass
 
 
+class IllConditioned(Exception):
+    """the reference value at this point is numerically unstable (e.g. a comparison of two almost equal reals)"""
+
+
 REAL = ("real", ())
 
 
